@@ -336,6 +336,35 @@ class Env:
                 return s
         return None
 
+    # ----------------------------------------------------------------- assumed axioms, instantiated on the terms present
+    def add_axiom(self, decl_name, fact, note):
+        """an assumed universally quantified fact about a function symbol, used through ground instances only: for
+        every application app of the symbol that occurs in a VC, fact(app) is added as a hypothesis"""
+        if not hasattr(self, "axioms"):
+            self.axioms = {}
+        self.axioms[decl_name] = (fact, note)
+        self.assumptions_used.add(note)
+
+    def axiom_instances(self, terms):
+        ax = getattr(self, "axioms", None)
+        if not ax:
+            return []
+        out, seen, todo = [], set(), list(terms)
+        while todo:
+            t = todo.pop()
+            i = t.get_id()
+            if i in seen:
+                continue
+            seen.add(i)
+            if z3.is_app(t):
+                e = ax.get(t.decl().name()) if t.num_args() > 0 else None
+                if e is not None:
+                    out.append(e[0](t))
+                todo.extend(t.children())
+            elif z3.is_quantifier(t):
+                todo.append(t.body())
+        return out
+
     def is_spec_module(self, fn):
         mod = getattr(fn, "__module__", "") or ""
         return mod.startswith("specs") or mod.startswith("contracts") or mod.startswith("lemmas") or mod == "pyvc.api"
